@@ -299,8 +299,7 @@ func (w *verifC08World) after() {
 	verifAssert(verifC08Closed(a.SetRemoteCredentials("c08lateufrag", verifC08RP)), "SetRemoteCredentials-after-Close-reports-closed")
 	verifAssert(a.remoteUfrag == ru, "SetRemoteCredentials-after-Close-has-no-effect")
 	p, err := a.GetSelectedCandidatePair()
-	verifAssert(p == nil, "no-selected-pair-after-Close")
-	_ = err
+	verifAssertKnown(verifC08Closed(err) && p == nil, "GetSelectedCandidatePair-after-Close-reports-closed", "C08-selected-pair-readable-after-close", true)
 	// no goroutine started by the agent keeps running
 	verifAssert(verifQuiesce() == 0, "no-goroutine-started-by-the-agent-keeps-running")
 	w.mu.Lock()
@@ -393,8 +392,17 @@ func verifC08CloseVsBlockedIO() {
 	a := w.a
 	kind := verifChoice(4)
 	sock := w.addLocal(1000, kind == 2)
-	if kind >= 1 {
-		w.addRemote()
+	w.addRemote()
+	if kind == 0 {
+		// the reader belongs to a connected agent: a pair is selected, so writes
+		// take the fast path that does not go through the loop
+		err := a.loop.Run(a.loop, func(context.Context) {
+			p := a.checklist[0]
+			p.state, p.nominated = CandidatePairStateSucceeded, true
+			a.setSelectedPair(p)
+		})
+		verifAssert(err == nil && a.getSelectedPair() != nil, "pair-selected")
+		verifReach("connected")
 	}
 	var wg sync.WaitGroup
 	wg.Add(1)
